@@ -43,7 +43,8 @@ func zzSimpleTx(n *zzNode, tag string, nonce uint64) *zzTx {
 		t.typ = ctrlertypes.TRX_STAKING
 		t.from = 3 // A3: a funded delegator
 		t.to = zzverif.Choose(tag+".to", 2)
-		t.amount = ctrlertypes.PowerToAmount(zzverif.NondetI64In(tag+".power", 1, 1<<40))
+		// a small or a large delegation (the large one trips the stake limiter)
+		t.amount = ctrlertypes.PowerToAmount([]int64{1, 1 << 41}[zzverif.Choose(tag+".power", 2)])
 	case 1:
 		t.typ = ctrlertypes.TRX_UNSTAKING
 		t.from = zzverif.Choose(tag+".from", 2)
@@ -64,8 +65,10 @@ func zzSimpleTx(n *zzNode, tag string, nonce uint64) *zzTx {
 // serves one extra CheckTx (of a symbolic transaction) or Query at one of 5
 // positions around block 3.
 func ZZ_C06_M1() {
-	govp := ctrlertypes.ZZSymGovParams("gov", ctrlertypes.ZZAllGovFields)
-	g := zzNewGenesis(5, 4, govp)
+	// concrete governance parameters (ratios 50/33/33): the property is about
+	// information flow between the mempool path and block execution
+	govp := ctrlertypes.Test1GovParams()
+	g := zzNewGenesisBanded(5, 4, govp)
 	a, b := g.start(), g.start()
 	for _, n := range []*zzNode{a, b} {
 		n.emptyBlock(0)
@@ -89,7 +92,14 @@ func ZZ_C06_M1() {
 		} else {
 			rawC = b.encode(txc)
 		}
-		zzverif.Known("C06-K1", txc.typ != ctrlertypes.TRX_TRANSFER || zzverif.SameBytes(rawC, raw3) && tx3.typ != ctrlertypes.TRX_TRANSFER)
+		// known finding C06-K1: the stake limiter is shared with the mempool path –
+		// a staking/unstaking CheckTx between BeginBlock and the DeliverTx of a
+		// staking/unstaking transaction (slot 1) changes that DeliverTx's result
+		injectedStake := txc.typ != ctrlertypes.TRX_TRANSFER
+		if zzverif.SameBytes(rawC, raw3) {
+			injectedStake = tx3.typ != ctrlertypes.TRX_TRANSFER
+		}
+		zzverif.Known("C06-K1", slot == 1 && injectedStake && tx3.typ != ctrlertypes.TRX_TRANSFER)
 	}
 	inject := func(at int) {
 		if at != slot {
